@@ -831,8 +831,10 @@ def _rt_record_worker(cases):
     return out
 
 
-def _collect(fails, results, rejected=None):
-    """keep the smallest failing input per (fid, clause)"""
+def _collect(fails, results, rejected=None, also=None, order=None):
+    """keep the smallest failing input per (fid, clause); also: dict collecting EVERY failing input per
+    (fid, clause) as (order(case), case), order(case) being the position of the case in the enumeration
+    (the results arrive in the order the workers finish)"""
     for f, c, d, case, size in results:
         if c == 'REJECTED':
             n, sz, ex = rejected.get(d, (0, 10**9, None))
@@ -840,15 +842,25 @@ def _collect(fails, results, rejected=None):
             rejected[d] = (n + 1, min(sz, size), ex)
             continue
         key = (f, c)
+        if also is not None:
+            also.setdefault(key, {}).setdefault(order(case), case)
         if key not in fails or size < fails[key][0]:
             fails[key] = (size, d, case)
 
 
-def _fails_list(fails, replay_fn):
-    return [
-        {'fid': f, 'clause': c, 'detail': d[:600], 'case': dict(case, fid=f, clause=c), 'replay_fn': replay_fn}
-        for (f, c), (_, d, case) in sorted(fails.items())
-    ]
+ALSO_CAP = 300  # length of the 'also' list of a failing clause (tools/BOUNDED_GUIDE.md)
+
+
+def _fails_list(fails, replay_fn, also=None):
+    out = []
+    for (f, c), (_, d, case) in sorted(fails.items()):
+        e = {'fid': f, 'clause': c, 'detail': d[:600], 'case': dict(case, fid=f, clause=c), 'replay_fn': replay_fn}
+        if also is not None:
+            # every failing case of the clause, in enumeration order
+            every = also.get((f, c)) or {0: case}
+            e['also'] = [dict(every[k], fid=f, clause=c) for k in sorted(every)][:ALSO_CAP]
+        out.append(e)
+    return out
 
 
 def _chunked(seq, n):
@@ -864,12 +876,21 @@ def bounded_roundtrip(tier):
     record_cases = list(_gen_record_cases(tier))
     fails = {}
     rejected = {}
+    also = {}
+    stream_pos = {(base, tuple(fl)): i for i, (base, fl) in enumerate(stream_cases)}
+    record_pos = {text: len(stream_cases) + i for i, (_, text) in enumerate(record_cases)}
+
+    def order(case):
+        if case['kind'] == 'stream':
+            return (stream_pos[(case['base'], tuple(case['flags']))], False)
+        return (record_pos[case['text']], case['rkind'] is None)
+
     ctx = mp.get_context('fork')
     with ctx.Pool(NPROC, initializer=_pool_init) as pool:
         for res in pool.imap_unordered(_rt_stream_worker, stream_cases, chunksize=4):
-            _collect(fails, res, rejected)
+            _collect(fails, res, rejected, also, order)
         for res in pool.imap_unordered(_rt_record_worker, list(_chunked(record_cases, 200))):
-            _collect(fails, res, rejected)
+            _collect(fails, res, rejected, also, order)
     # order independence / determinism: the same texts parsed again in one process, reversed order
     sub = record_cases[:: max(1, len(record_cases) // 300)]
     from pharmpy.model.external.nonmem.records.factory import create_record
@@ -886,7 +907,8 @@ def bounded_roundtrip(tier):
     a, b = outs(sub), outs(sub[::-1])
     for t in a:
         if a[t] != b[t]:
-            _collect(fails, [(FID_CREATE, C_STABLE, f'{t!r}: {a[t]!r} then {b[t]!r}', {'kind': 'record', 'rkind': None, 'text': t}, len(t))])
+            _collect(fails, [(FID_CREATE, C_STABLE, f'{t!r}: {a[t]!r} then {b[t]!r}', {'kind': 'record', 'rkind': None, 'text': t}, len(t))],
+                     None, also, order)
     ncases = len(stream_cases) + len(record_cases)
     nrejected = sum(n for n, _, _ in rejected.values())
     return {
@@ -899,7 +921,7 @@ def bounded_roundtrip(tier):
         f'{nrejected} texts with exotic features are rejected by the parser (outside the precondition)',
         'samples': [repr(model_text('advan', ('crlf', 'abbrev'))[0][:120]), repr(record_cases[len(record_cases) // 2]),
                     repr(record_cases[-1])],
-        'fails': _fails_list(fails, 'bounded_roundtrip_replay'),
+        'fails': _fails_list(fails, 'bounded_roundtrip_replay', also),
     }
 
 
@@ -1513,11 +1535,17 @@ def bounded_update_source(tier):
             seen.add(key)
             cases.append(c)
     fails = {}
+    also = {}
+    pos = {repr(sorted(c.items())): i for i, c in enumerate(cases)}
+
+    def order(case):
+        return pos[repr(sorted(case.items()))]
+
     n_ident = sum(1 for c in cases if c['edit'] is None)
     ctx = mp.get_context('fork')
     with ctx.Pool(NPROC, initializer=_pool_init) as pool:
         for res, _ in pool.imap_unordered(_us_worker, cases, chunksize=4):
-            _collect(fails, res)
+            _collect(fails, res, None, also, order)
     return {
         'cases': len(cases),
         'nontrivial': len(cases),
@@ -1529,7 +1557,7 @@ def bounded_update_source(tier):
         f'every slot of a 4+ statement record) x all pairs of {len(DECOR_QUICK if tier == "quick" else DECOR_THOROUGH)} '
         f'comment/verbatim/blank decorations directly above and below the edited statement',
         'samples': [repr(cases[1]), repr(cases[n_ident + 3]), repr(cases[-1])],
-        'fails': _fails_list(fails, 'bounded_update_source_replay'),
+        'fails': _fails_list(fails, 'bounded_update_source_replay', also),
     }
 
 
